@@ -942,8 +942,12 @@ public:
 	{
 		return ::mpt::unused(generic());
 	}
-	inline bool swap(long p1, long p2) const
+	inline bool swap(long p1, long p2)
 	{
+		/* elements of shared data are not exchanged in place */
+		if (!this->detach()) {
+			return false;
+		}
 		return ::mpt::swap(generic(), p1, p2);
 	}
 };
